@@ -51,6 +51,9 @@ type Report struct {
 	Assume   []string
 	Extra    map[string]interface{}
 	keys     map[string]bool
+	// IDPrefix is prepended to rule ids while another property's rule functions run inside this report
+	// (shared rules keep their own numbering: "C01/C04.R5").
+	IDPrefix string
 }
 
 func NewReport(prop, tier string) *Report {
@@ -59,7 +62,7 @@ func NewReport(prop, tier string) *Report {
 
 // Rule declares a rule with its text and the number of instances confirmed by hand on the pinned tree.
 func (r *Report) Rule(id, text string, floor int) string {
-	full := r.Property + "/" + id
+	full := r.Property + "/" + r.IDPrefix + id
 	if _, ok := r.Rules[full]; !ok {
 		r.Rules[full] = &RuleInfo{ID: full, Text: text, Floor: floor}
 		r.order = append(r.order, full)
